@@ -79,6 +79,21 @@ def step (line : String) : String :=
       let out := rows.map fun ρ =>
         s!"{showVals [match e.uvol with | some g => g.f ρ | none => []]} {showVals [f.f (ρ ++ (σb ++ σa))]} {showVars (match e.uvol with | some g => g.args | none => [])}"
       return if out.isEmpty then "-" else ";".intercalate out
+    | "resupply" => do
+      -- σ0 = Python defaults of the user's functions (a function with defaults is `p.peval σ0`), then the calls
+      -- D(**σ1)(**σ2) as coded (`pevalC`), σ2 may supply variables again that σ0 / σ1 already fixed
+      let atol ← rat; let rtol ← rat; let batol ← rat
+      let d ← parseDom rat
+      let σ0 ← parseEnv rat
+      let σ1 ← parseEnv rat
+      let σ2 ← parseEnv rat
+      let rows ← many (do let pts ← parseEnv rat; let ρ ← parseEnv rat; pure (pts, ρ))
+      let τ : Tol Rat := ⟨atol, rtol, batol⟩
+      let d1 := (d.peval σ0).pevalC σ1
+      let d2 := d1.pevalC σ2
+      let out := rows.map fun (pts, ρ) =>
+        s!"{showOB (contains τ d2 pts ρ)} {showOB (contains τ d1 pts (ρ ++ σ2))} {showM (margin τ false d1 pts (ρ ++ σ2))} {showVars d2.freeVars} {showVars d1.freeVars} {showVars (d.peval σ0).freeVars}"
+      return if out.isEmpty then "-" else ";".intercalate out
     | "peval2" => do
       -- repeated evaluation: D(**σ1)(**σ2) at (pts, ρ)  vs  D at (pts, ρ ∪ σ2 ∪ σ1)
       let atol ← rat; let rtol ← rat; let batol ← rat
